@@ -86,7 +86,7 @@ func (g *Gen) GenTables() {
 			nrows = 2 + r.Intn(7)
 		}
 		small := r.Chance(1, 2) // small domains: duplicates, equal keys
-		nullRate := 1 + r.Intn(4)
+		nullRate := 1 + r.Intn(3)
 		for i := 0; i < nrows; i++ {
 			if i > 0 && r.Chance(1, 5) {
 				t.Rows = append(t.Rows, append([]Val(nil), t.Rows[r.Intn(i)]...)) // duplicate row
@@ -311,8 +311,8 @@ func (g *Gen) GenQuery(depth int, top bool) (*Query, []Field, bool, bool) {
 	si := g.genSource(depth)
 	q := &Query{From: si.src}
 	fs := si.fields
-	if r.Chance(1, 2) {
-		q.Where = g.GenExpr(fs, KBool, 2)
+	if r.Chance(2, 5) {
+		q.Where = g.GenExpr(fs, KBool, 1+r.Intn(2))
 	}
 	var out []Field
 	grouping := r.Intn(10) < g.P.GroupBias
